@@ -1,0 +1,71 @@
+//go:build verif
+
+package pagination
+
+import (
+	nurl "net/url"
+	"strings"
+
+	"github.com/go-shiori/dom"
+	"github.com/markusmobius/go-domdistiller/internal/logutil"
+	"github.com/markusmobius/go-domdistiller/internal/pagination/info"
+	"github.com/markusmobius/go-domdistiller/internal/stringutil"
+	"golang.org/x/net/html"
+)
+
+// VerifNumberGroups runs the scanning half of PageNumberFinder.FindOutlink (the loop over the
+// anchors and CleanUp) and returns the groups of adjacent numbers before detection reads
+// (and writes) them. pageURL is used as given: FindPagination passes its slash-trimmed copy.
+func VerifNumberGroups(root *html.Node, pageURL *nurl.URL, wc stringutil.WordCounter) *info.MonotonicPageInfoGroups {
+	pnf := NewPageNumberFinder(wc, nil, nil)
+	idx := 0
+	allLinks := dom.GetElementsByTagName(root, "a")
+	for idx < len(allLinks) {
+		link := allLinks[idx]
+		pageInfo, _ := pnf.getPageInfoAndText(link, pageURL)
+		if pageInfo == nil {
+			idx++
+			continue
+		}
+		pnf.adjacentNumberGroups.AddGroup()
+		pnf.findAndAddClosestValidLeafNodes(link, false, true, pageURL)
+		pnf.adjacentNumberGroups.AddPageInfo(pageInfo)
+		pnf.numForwardLinksProcessed = 0
+		pnf.findAndAddClosestValidLeafNodes(link, false, false, pageURL)
+		idx += 1 + pnf.numForwardLinksProcessed
+	}
+	pnf.adjacentNumberGroups.CleanUp()
+	return pnf.adjacentNumberGroups
+}
+
+// VerifTrimmedPageURL is the copy of the page URL FindPagination works with, and its
+// unescaped string form.
+func VerifTrimmedPageURL(pageURL *nurl.URL) (*nurl.URL, string) {
+	url := *pageURL
+	url.Path = strings.TrimSuffix(url.Path, "/")
+	url.RawPath = url.Path
+	return &url, stringutil.UnescapedString(&url)
+}
+
+// VerifLinkTrace is what the prev/next finder noted about one anchor.
+type VerifLinkTrace struct {
+	Link  *html.Node
+	Debug string
+}
+
+type verifPagingLogger struct{ logutil.Logger }
+
+func (verifPagingLogger) IsLogPagination() bool                  { return true }
+func (verifPagingLogger) PrintPaginationInfo(args ...interface{}) {}
+
+// VerifPrevNextTrace runs PrevNextFinder.FindOutlink for one direction with its debug notes
+// switched on, and returns the notes of every anchor together with the result.
+func VerifPrevNextTrace(root *html.Node, pageURL *nurl.URL, findNext bool) ([]VerifLinkTrace, string) {
+	pnf := NewPrevNextFinder(verifPagingLogger{})
+	result := pnf.FindOutlink(root, pageURL, findNext)
+	var out []VerifLinkTrace
+	for _, link := range dom.GetElementsByTagName(root, "a") {
+		out = append(out, VerifLinkTrace{Link: link, Debug: pnf.linkDebugInfo[link]})
+	}
+	return out, result
+}
